@@ -38,6 +38,13 @@ class StrSubExc(KeyError):
     pass
 
 
+class KeepsCause(Exception):
+    """Its pickling carries `__cause__` along (as tblib-style or hand-written __reduce__ implementations do)."""
+
+    def __reduce__(self):
+        return (KeepsCause, self.args, {'__cause__': self.__cause__})
+
+
 EXC_SPECS = [
     ('ValueError', ('x',), None), ('KeyError', ('k',), None), ('KeyError', (('tuple', 1),), None), ('IndexError', (), None), ('OSError', (2, 'No such file'), None),
     ('OSError', (13, 'denied', 'fname'), None), ('FileNotFoundError', (2, 'nf', 'name'), None), ('ConnectionResetError', (104, 'reset'), None),
@@ -47,8 +54,9 @@ EXC_SPECS = [
     ('RecursionError', ('deep',), None), ('NotImplementedError', (), None), ('ImportError', ('no module',), None), ('AttributeError', ('attr',), None),
     ('Boom', ('a', 1), None), ('Boom2', (1, 2), None), ('ReduceExc', (7, 'detail'), None), ('KwOnlyExc', (), {'reason': 'why'}), ('Reject', ('r',), None),
     ('AttrExc', ('p',), None), ('NoArgsExc', (), None), ('StrSubExc', ('sub',), None), ('LookupError', (ValueError('inner'),), None),
+    ('KeepsCause', ('kc', 1), None),
 ]
-LOCAL = {'AttrExc': AttrExc, 'NoArgsExc': NoArgsExc, 'StrSubExc': StrSubExc}
+LOCAL = {'AttrExc': AttrExc, 'NoArgsExc': NoArgsExc, 'StrSubExc': StrSubExc, 'KeepsCause': KeepsCause}
 
 
 def make(name, args, kwargs):
@@ -77,7 +85,7 @@ def gen_cases(tier, seed):
         for depth in ([1, 7, 40] if tier == 'quick' else [1, 2, 7, 20, 40]):
             for hops in ([1, 2, 3, 6] if tier == 'quick' else [1, 2, 3, 4, 5, 6]):
                 for pat in patterns:
-                    cases.append({'kind': 'memory', 'spec': i, 'depth': depth, 'hops': hops, 'pattern': pat, 'chained': rng.random() < 0.25,
+                    cases.append({'kind': 'memory', 'spec': i, 'depth': depth, 'hops': hops, 'pattern': pat, 'chained': rng.random() < (0.25 if spec[0] != 'KeepsCause' else 0.8),
                                   'seed': rng.randrange(1 << 30)})
     for i in range(60 if tier == 'quick' else 600):
         cases.append({'kind': 'ensemble', 'members': [rng.randrange(len(EXC_SPECS)) for _ in range(rng.choice([2, 3, 4]))], 'hops': rng.choice([1, 2, 3]),
